@@ -87,7 +87,7 @@ def run(ctx):
         raise vlib.Infra("generator produced %d cases / %d grid records" % (len(gen), len(grid)))
     grid = grid[0]
     kinds = collections.Counter(c["kind"] for c in gen)
-    for k in ("none", "nonelarge", "sample", "cmp", "cmplarge", "delta", "range", "cacheorder"):
+    for k in ("none", "nonelarge", "normallarge", "sample", "cmp", "cmplarge", "delta", "range", "cacheorder"):
         if kinds[k] == 0:
             raise vlib.Infra("generator produced no %s cases" % k)
     gen.sort(key=lambda c: json.dumps(c, sort_keys=True))
@@ -111,6 +111,8 @@ def run(ctx):
             nontriv += 1 if c["minN"] <= c["n"] else 0
         elif k == "nonelarge":
             nontriv += 1
+        elif k == "normallarge":
+            nontriv += 1 if c["n"] >= 2 else 0
         elif k in ("delta", "range"):
             w = c["want"]
             nontriv += 1 if (w and w[-1] == "%" and len(w) > 2) else 0
